@@ -76,8 +76,15 @@ func runC19Directed(c *Ctx) {
 					func() string { return skimFmt(&chunkReader{data: trunc, failAt: -1}) },
 					func() string { return skimFmt(&chunkReader{data: trunc, chunks: []int{1}, eofWith: true, failAt: -1}) },
 				} {
-					if got := src(); got != base {
-						ioViolate(c, k, fmt.Sprintf("%s:truncated:source%d", fam, si), fmt.Sprintf("a skipping traversal of the document cut at byte %d of %d differs between sources (0 seekable, 1 Seek fails, 2 one piece, 3 byte-wise; reference: 1000-byte chunks): %s", cut, len(data), firstDiff(base, got)))
+					got, want := src(), base
+					if si == 0 {
+						// a source that can seek is not another chunking of the same delivery: the property
+						// promises the same values and that the truncation is noticed, not the same position
+						// or wording in the error (a reader that seeks over what it skips meets the end elsewhere)
+						got, want = skimValuesAndErrPresence(got), skimValuesAndErrPresence(base)
+					}
+					if got != want {
+						ioViolate(c, k, fmt.Sprintf("%s:truncated:source%d", fam, si), fmt.Sprintf("a skipping traversal of the document cut at byte %d of %d differs between sources (0 seekable, 1 Seek fails, 2 one piece, 3 byte-wise; reference: 1000-byte chunks): %s", cut, len(data), firstDiff(want, got)))
 					}
 				}
 				if binary && !strings.Contains(base, "err: ") {
@@ -89,6 +96,28 @@ func runC19Directed(c *Ctx) {
 			}
 		}
 	}
+}
+
+// skimValuesAndErrPresence reduces the text of a skimming traversal to what it saw plus whether it ended
+// in an error (the wording and position of the error are dropped).
+func skimValuesAndErrPresence(s string) string {
+	failed := false
+	var out []string
+	for _, l := range strings.Split(s, "\n") {
+		if i := strings.Index(l, "err: "); i == 0 {
+			failed = true
+			continue
+		}
+		if i := strings.Index(l, " stepout:"); i >= 0 {
+			failed = true
+			l = l[:i]
+		}
+		if strings.HasPrefix(l, "PANIC") {
+			return s
+		}
+		out = append(out, l)
+	}
+	return strings.Join(out, "\n") + fmt.Sprintf("\nfailed=%v", failed)
 }
 
 // firstBinaryValueEnd reports whether cut falls strictly inside a top-level value of the binary document
